@@ -18,6 +18,14 @@ func init() {
 }
 
 func (w *World) exec(op Op) {
+	switch op.K {
+	case "blob", "man", "get", "del", "tags", "refs", "sess":
+		if w.tainted[w.repoName(op.Repo)] || (op.K == "sess" && w.sessions[op.Sess] != nil && w.tainted[w.sessions[op.Sess].repo]) {
+			sup := w.x.suppress
+			w.x.suppress = true
+			defer func() { w.x.suppress = sup }()
+		}
+	}
 	busy := w.naturalGC() && w.backgroundBusy()
 	if busy {
 		w.markCollectable()
@@ -60,6 +68,9 @@ func (w *World) exec(op Op) {
 		w.checkLayout(false)
 	case "raw":
 		w.opRaw(op)
+	case "quiet":
+		w.quiet = true
+		w.x.suppress = true
 	}
 	if busy || (w.naturalGC() && w.backgroundBusy()) {
 		w.markCollectable()
@@ -97,9 +108,11 @@ func engineSeq(x *X) {
 	if len(x.out.Viol) == 0 && !x.stop {
 		x.opIdx = len(ops)
 		w.settle()
-		w.checkSessions()
-		w.checkState(true)
-		w.checkLayout(false)
+		if !w.quiet {
+			w.checkSessions()
+			w.checkState(true)
+			w.checkLayout(false)
+		}
 	}
 	if len(x.out.Viol) == 0 {
 		if err := w.close(); err != nil {
@@ -108,7 +121,10 @@ func engineSeq(x *X) {
 		}
 		w.settle()
 		// after Close the directory must still be a valid layout and hold no upload residue
-		w.afterClose()
+		if !w.quiet {
+			w.afterClose()
+		}
+		w.monitors()
 	} else {
 		// leave the run; the server is closed so that background tasks end
 		func() {
